@@ -44,7 +44,7 @@ void predefined(Rank& R)
 using namespace mpii;
 
 /* ---- buffers: every buffer is surrounded by two guard zones of GUARD bytes (value 0xA5) that `dump` verifies ---- */
-static constexpr size_t GUARD = 512;
+static constexpr size_t GUARD = mpii::BUF_GUARD;
 
 static unsigned char* bufptr(Rank& R, const json& a, const char* key = "buf", const char* offkey = "off")
 {
